@@ -435,7 +435,7 @@ fn main() {
         "C10" => {
             use skv_verif::engine_crash::crash_prop_c10;
             let findings = Findings::load();
-            let streams = vec![(props::c10(false, true), 12000u64, 120000u64), (props::c10(true, false), 12000, 120000), (props::c10(true, true), 1500, 15000), (props::c10_backdated(), 8000, 80000)];
+            let streams = vec![(props::c10(false, true), 12000u64, 120000u64), (props::c10(true, false), 12000, 120000), (props::c10(true, true), 1500, 15000), (props::c10_backdated(), 8000, 80000), (props::c10_retention(false), 5000, 60000), (props::c10_retention(true), 5000, 60000)];
             let crash = crash_prop_c10(4, true);
             if let Some(p) = replay {
                 let text = std::fs::read_to_string(&p).unwrap_or_default();
@@ -463,8 +463,12 @@ fn main() {
             let findings = Findings::load();
             let main = props::c11();
             let sched = sched_prop("C11", Flavor::C11);
+            let crash = skv_verif::engine_crash::crash_prop_c11_index(4);
             if let Some(p) = replay {
                 let text = std::fs::read_to_string(&p).unwrap_or_default();
+                if text.contains("\"work2\"") {
+                    std::process::exit(replay_one(&crash, &p, &findings));
+                }
                 if text.contains("\"actors\"") {
                     std::process::exit(replay_one(&sched, &p, &findings));
                 }
@@ -477,7 +481,9 @@ fn main() {
             run_replays(&sched, &findings, &mut rep);
             rep.merge(run_prop(&main, cases_for(tier, 25000, 250000), seed, 0, &findings));
             rep.merge(run_prop(&sched, cases_for(tier, 6000, 60000), seed, 1, &findings));
-            let rule = format!("{} || SECOND STREAM ({})", main.rule, sched.rule);
+            // crash axis of the value-log clean-up with the version index on
+            rep.merge(run_prop(&crash, cases_for(tier, 30, 800), seed, 2, &findings));
+            let rule = format!("{} || SECOND STREAM ({}) || CRASH STREAM ({})", main.rule, sched.rule, crash.rule);
             finish(main.id, main.level, tier, seed, &rule, &main.assumptions, &rep, t0.elapsed().as_secs_f64(), &findings)
         }
         "C14" => run_model(vec![(props::c14(Some(false), Some(0)), 20000, 200000), (props::c14(Some(true), Some(0)), 1500, 15000), (props::c14(Some(false), None), 1500, 15000)], tier, replay),
